@@ -28,6 +28,10 @@ static const Container containers [] =
 	{ SF_FORMAT_CAF, "caf", CAF_STR, 0, 0, 0, 0, 1, 0 },
 	{ SF_FORMAT_AU, "au", 0, 0, 0, 0, 0, 0, 0 },
 	{ SF_FORMAT_W64, "w64", 0, 0, 0, 0, 0, 0, 0 },
+	/* the non-default byte order of the containers that have one: the metadata chunks are written and parsed with explicit byte-order switches */
+	{ SF_FORMAT_WAV | SF_ENDIAN_BIG, "rifx", WAV_STR, 1, 1, 1, 1, 0, 0 },
+	{ SF_FORMAT_AIFF | SF_ENDIAN_LITTLE, "aifc-le", AIFF_STR, 0, 0, 1, 0, 1, 1 },
+	{ SF_FORMAT_CAF | SF_ENDIAN_LITTLE, "caf-le", CAF_STR, 0, 0, 0, 0, 1, 0 },
 	{ 0, NULL, 0, 0, 0, 0, 0, 0, 0 }
 } ;
 
@@ -77,9 +81,9 @@ static void make_bext (SF_BROADCAST_INFO *b, int variant)
 	b->version = 2 ;
 	for (int i = 0 ; i < (int) sizeof (b->umid) ; i++) b->umid [i] = (char) (i * 3 + variant + 1) ;
 	b->loudness_value = 100 + variant ; b->loudness_range = -5 ; b->max_true_peak_level = 7 ; b->max_momentary_loudness = -300 ; b->max_shortterm_loudness = 12 ;
-	{	static const int hl [6] = { 0, 1, 2, 9, 200, 255 } ; int n = hl [variant % 6] ;
+	{	static const int hl [7] = { 0, 1, 2, 9, 200, 255, 256 } ; int n = hl [variant % 7] ;	/* 256: the text fills the caller's array exactly, no terminator */
 		for (int i = 0 ; i < n ; i++) b->coding_history [i] = (char) ('A' + i % 26) ;
-		if (variant % 6 == 4) { b->coding_history [50] = '\n' ; b->coding_history [120] = '\r' ; b->coding_history [121] = '\n' ; }
+		if (variant % 7 == 4) { b->coding_history [50] = '\n' ; b->coding_history [120] = '\r' ; b->coding_history [121] = '\n' ; }
 		b->coding_history_size = n ;
 		}
 }
@@ -97,7 +101,7 @@ static void make_cart (SF_CART_INFO *c, int variant)
 	c->level_reference = 32768 + variant ;
 	for (int i = 0 ; i < 8 ; i++) { memcpy (c->post_timers [i].usage, "MRK ", 4) ; c->post_timers [i].usage [3] = (char) ('0' + i) ; c->post_timers [i].value = 1000u * i + variant ; }
 	fill_field (c->url, sizeof (c->url), variant % 3, 11) ;
-	{	static const int tl [5] = { 0, 1, 2, 100, 255 } ; int n = tl [variant % 5] ;
+	{	static const int tl [6] = { 0, 1, 2, 100, 255, 256 } ; int n = tl [variant % 6] ;	/* 256: fills the array exactly */
 		for (int i = 0 ; i < n ; i++) c->tag_text [i] = (char) ('a' + i % 26) ;
 		c->tag_text_size = n ;
 		}
@@ -110,7 +114,7 @@ static void make_cues (SF_CUES *q, int variant, const Container *c)
 	{	SF_CUE_POINT *p = &q->cue_points [i] ;
 		p->indx = i + 1 ; p->sample_offset = (uint32_t) (i * 3 + variant) ;
 		p->fcc_chunk = 0x61746164 ;	/* 'data' */
-		if (c->major != SF_FORMAT_AIFF) { p->position = (uint32_t) (i + 7) ; p->chunk_start = 0 ; p->block_start = 0 ; }
+		if ((c->major & SF_FORMAT_TYPEMASK) != SF_FORMAT_AIFF) { p->position = (uint32_t) (i + 7) ; p->chunk_start = 0 ; p->block_start = 0 ; }
 		if (c->cuenames) snprintf (p->name, sizeof (p->name), "Cue %03d%s", i, (i & 1) ? "x" : "") ;
 		}
 }
@@ -129,7 +133,7 @@ static void make_inst (SF_INSTRUMENT *in, int variant, const Container *c)
 
 static int make_chmap (int *map, int variant, const Container *c, int *channels)
 {	/* representable layouts only: the Apple layout tags (AIFF, CAF) / ascending MS speaker masks (WAVEX, RF64) */
-	if (c->major == SF_FORMAT_AIFF || c->major == SF_FORMAT_CAF)
+	if ((c->major & SF_FORMAT_TYPEMASK) == SF_FORMAT_AIFF || (c->major & SF_FORMAT_TYPEMASK) == SF_FORMAT_CAF)
 	{	static const int l2 [2] = { SF_CHANNEL_MAP_LEFT, SF_CHANNEL_MAP_RIGHT }, l3a [3] = { SF_CHANNEL_MAP_LEFT, SF_CHANNEL_MAP_RIGHT, SF_CHANNEL_MAP_CENTER },
 			l3b [3] = { SF_CHANNEL_MAP_CENTER, SF_CHANNEL_MAP_LEFT, SF_CHANNEL_MAP_RIGHT }, l4 [4] = { SF_CHANNEL_MAP_AMBISONIC_B_W, SF_CHANNEL_MAP_AMBISONIC_B_X, SF_CHANNEL_MAP_AMBISONIC_B_Y, SF_CHANNEL_MAP_AMBISONIC_B_Z } ;
 		switch (variant % 4) { case 0 : memcpy (map, l2, sizeof (l2)) ; *channels = 2 ; break ; case 1 : memcpy (map, l3a, sizeof (l3a)) ; *channels = 3 ; break ;
@@ -344,7 +348,7 @@ static void run_c12 (void)
 			snprintf (rs, sizeof (rs), "%s", c->name) ;
 			/* (1) every single kind with every value, before the data and after the first write */
 			for (int kind = 0 ; kind < K_NKINDS ; kind++)
-			{	int nvar = kind == K_STR ? NTEXT : kind == K_BEXT ? 6 : kind == K_CART ? 5 : kind == K_CUE ? 5 : 4 ;
+			{	int nvar = kind == K_STR ? NTEXT : kind == K_BEXT ? 7 : kind == K_CART ? 6 : kind == K_CUE ? 5 : 4 ;
 				if (si > 0 && kind != K_STR) nvar = 1 ;
 				for (int sidx = 0 ; sidx < (kind == K_STR ? NSTR : 1) ; sidx++)
 					for (int v = 0 ; v < nvar ; v++)
